@@ -5,11 +5,19 @@ tests, run the given quick checks against each ($LSF_REPO) and list the survivor
 equivalent mutant or a gap in the checks' inputs.
 
 usage: mutate.py <file relative to asl-workflow-engine/py> <first line> <last line> <n mutants> <seed> <check ids ...>
+       mutate.py --rerun <log.jsonl> <k,k,...> [--seed n] <check ids ...>   logged mutants again, against other checks
+       mutate.py --hand <spec.json> [id ...]     hand-made mutants: a JSON list of {"id", "file", "find", "replace", "checks",
+                                                 "note"} — `find` must occur exactly once in the file ("count": n allows n and
+                                                 replaces all); "seed" (default: the mutant's own 90000+k) fixes VERIF_SEED
+environment: MUT_SRC (default /repo) the tree the mutants are made from (never edited), MUT_JOBS parallel mutants (6),
+MUT_LOG a JSON-lines file every result is appended to (with file, range and checks — MUTATION.md's table is built from it).
+Checks that regenerate shared files (C16 writes lean/AslModel/Generated.lean) must be run with MUT_JOBS=1 from a private
+copy of this tree.
 """
-import os, random, re, shutil, subprocess, sys, json, concurrent.futures
+import os, random, re, shutil, subprocess, sys, json, hashlib, concurrent.futures
 
 VERIF = os.path.dirname(os.path.dirname(os.path.dirname(os.path.abspath(__file__))))
-SRC = "/repo"
+SRC = os.environ.get("MUT_SRC", "/repo")
 RULES = [
     (r" == ", " != "), (r" != ", " == "), (r" and ", " or "), (r" or ", " and "), (r" < ", " <= "), (r" <= ", " < "),
     (r" > ", " >= "), (r" >= ", " > "), (r"\bTrue\b", "False"), (r"\bFalse\b", "True"), (r"\bnot ", ""), (r" \+ 1\b", ""),
@@ -63,16 +71,25 @@ def candidates(lines, lo, hi, rng, n):
 
 
 def run_mutant(job):
-    k, rel, i, new, old, checks = job
-    d = "/tmp/mut/%d" % k
+    k, rel, i, new, old, checks = job[:6]
+    fixed_seed = job[6] if len(job) > 6 else None
+    d = "/tmp/mut2/%d" % k
     shutil.rmtree(d, True)
     os.makedirs(d)
     shutil.copytree(os.path.join(SRC, "asl-workflow-engine"), os.path.join(d, "asl-workflow-engine"))
     p = os.path.join(d, "asl-workflow-engine", "py", rel)
-    lines = open(p).read().splitlines(True)
-    lines[i] = new
-    open(p, "w").write("".join(lines))
-    res = {"k": k, "line": i + 1, "old": old.rstrip(), "new": new.rstrip()}
+    if i is None:            # hand-made: (find, replace, count) on the whole text
+        txt = open(p).read()
+        find, count = old
+        if txt.count(find) != count:
+            return {"k": k, "file": rel, "status": "spec-error", "tail": "%d occurrences of the text to replace" % txt.count(find)}
+        open(p, "w").write(txt.replace(find, new))
+        res = {"k": k, "file": rel, "old": find, "new": new, "checks": checks}
+    else:
+        lines = open(p).read().splitlines(True)
+        lines[i] = new
+        open(p, "w").write("".join(lines))
+        res = {"k": k, "file": rel, "line": i + 1, "old": old.rstrip(), "new": new.rstrip(), "checks": checks}
     try:
         rc, out = sh("/venv/bin/python -m py_compile %s" % p)
         if rc != 0:
@@ -82,11 +99,13 @@ def run_mutant(job):
         if "66 passed" not in out:
             res["status"] = "killed-by-tests"
             return res
-        env = dict(os.environ, LSF_REPO=d, VERIF_SEED=str(90000 + k))   # own seed: own replay files
+        vseed = 90000 + k if fixed_seed is None else fixed_seed
+        env = dict(os.environ, LSF_REPO=d, VERIF_SEED=str(vseed))   # own seed: own replay files
         for c in checks:
             rc, out = sh("/venv/bin/python harness/check.py %s --tier quick" % c, cwd=VERIF, env=env)
             if rc == 1 and "VIOLATION" in out:
                 res["status"] = "killed-by-" + c
+                res["violation"] = [l for l in out.splitlines() if l.startswith("VIOLATION")][0][:200]
                 return res
             if rc not in (0, 1) or (rc == 1 and "VIOLATION" not in out):
                 res["status"] = "infra-%s-exit%d" % (c, rc)
@@ -96,12 +115,61 @@ def run_mutant(job):
         return res
     finally:
         shutil.rmtree(d, True)
+        os.makedirs(os.path.join(VERIF, "replays"), exist_ok=True)
         for fn in os.listdir(os.path.join(VERIF, "replays")):
-            if "-%d-" % (90000 + k) in fn:
+            if fixed_seed is None and "-%d-" % (90000 + k) in fn:
                 os.unlink(os.path.join(VERIF, "replays", fn))
 
 
+def log(r, **extra):
+    print(json.dumps(r), flush=True)
+    if os.environ.get("MUT_LOG"):
+        with open(os.environ["MUT_LOG"], "a") as f:
+            f.write(json.dumps(dict(r, **extra)) + "\n")
+
+
+def hand(spec, only):
+    specs = [s for s in json.load(open(spec)) if not only or s["id"] in only]
+    jobs = [(800000 + int(hashlib.sha1(s["id"].encode()).hexdigest()[:4], 16), s["file"], None, s["replace"],
+             (s["find"], s.get("count", 1)), s["checks"], s.get("seed")) for s in specs]
+    out = []
+    with concurrent.futures.ThreadPoolExecutor(max_workers=int(os.environ.get("MUT_JOBS", "6"))) as ex:
+        for s, r in zip(specs, ex.map(run_mutant, jobs)):
+            r["id"], r["note"] = s["id"], s.get("note", "")
+            out.append(r)
+            log(r, hand=True)
+    tally = {}
+    for r in out:
+        tally[r["status"]] = tally.get(r["status"], 0) + 1
+    print("TALLY", json.dumps(tally))
+
+
+def rerun(logfile, ks, checks, fixed_seed=None):
+    """second run of logged single-line mutants (by their k) against other checks — for survivors whose behaviour belongs to
+    a property outside the checks their range was given, and to confirm a closed gap"""
+    want = [int(x) for x in ks.split(",")]
+    seen, jobs = set(), []
+    for l in open(logfile):
+        r = json.loads(l)
+        if r.get("k") in want and r["k"] not in seen and "line" in r:
+            seen.add(r["k"])
+            lines = open(os.path.join(SRC, "asl-workflow-engine", "py", r["file"])).read().splitlines(True)
+            assert lines[r["line"] - 1].rstrip() == r["old"], "source changed under mutant %d" % r["k"]
+            jobs.append((r["k"], r["file"], r["line"] - 1, r["new"] + "\n", lines[r["line"] - 1], checks, fixed_seed))
+    with concurrent.futures.ThreadPoolExecutor(max_workers=int(os.environ.get("MUT_JOBS", "6"))) as ex:
+        for r in ex.map(run_mutant, jobs):
+            log(r, rerun=True)
+
+
 def main():
+    if sys.argv[1] == "--hand":
+        return hand(sys.argv[2], sys.argv[3:])
+    if sys.argv[1] == "--rerun":          # --rerun <log.jsonl> <k,k,...> [--seed n] <checks...>
+        rest = sys.argv[4:]
+        fs = None
+        if rest and rest[0] == "--seed":
+            fs, rest = int(rest[1]), rest[2:]
+        return rerun(sys.argv[2], sys.argv[3], rest, fs)
     rel, lo, hi, n, seed = sys.argv[1], int(sys.argv[2]), int(sys.argv[3]), int(sys.argv[4]), int(sys.argv[5])
     checks = sys.argv[6:]
     rng = random.Random(seed)
@@ -112,7 +180,7 @@ def main():
     with concurrent.futures.ThreadPoolExecutor(max_workers=int(os.environ.get("MUT_JOBS", "6"))) as ex:
         for r in ex.map(run_mutant, jobs):
             out.append(r)
-            print(json.dumps(r), flush=True)
+            log(r, range=[lo, hi], seed=seed)
     tally = {}
     for r in out:
         tally[r["status"]] = tally.get(r["status"], 0) + 1
